@@ -60,10 +60,8 @@ SDPowerSet::Iterator::reference SDPowerSet::Iterator::operator*() const {
 }
 
 bool SDPowerSet::Iterator::operator==(const Iterator& rhs) const noexcept {
-  if (isCompleted && rhs.isCompleted) {
-    return true;
-  } else if (rhs.isCompleted) {
-    return false;
+  if (isCompleted || rhs.isCompleted) {
+    return isCompleted == rhs.isCompleted;
   } else {
     return counter == rhs.counter;
   }
@@ -180,10 +178,8 @@ SDDecartian::Iterator::reference SDDecartian::Iterator::operator*() const {
 }
 
 bool SDDecartian::Iterator::operator==(const Iterator& rhs) const noexcept {
-  if (isCompleted && rhs.isCompleted) {
-    return true;
-  } else if (rhs.isCompleted) {
-    return false;
+  if (isCompleted || rhs.isCompleted) {
+    return isCompleted == rhs.isCompleted;
   } else {
     return counter == rhs.counter;
   }
